@@ -47,11 +47,13 @@ def c16_t1(ctx, f):
         ps = [x[1] for x in subexprs(base) if x[0] == "param"]
         roles.append(ps[0] if len(ps) == 1 else None)
         idxs.append(idx)
-    ctx.check(rid, sorted(x for x in roles if x) == [1, 2] and len(idxs) == 2 and idxs[0] == idxs[1], fn.path + "/operands", fn.where((bid, si)), fn.path,
+    if sorted(x for x in roles if x) != [1, 2] or len(idxs) != 2:
+        # rows consulted through another idiom (zip, iterators, helper): not an accusation; C16.R3 decides the output exactly
+        ctx.abstain(rid, "glyph inputs are not in the `value(row[i])` shape: %s" % [expr_str(e, fn) for e in ops], fn.where((bid, si)))
+        return None
+    ctx.check(rid, idxs[0] == idxs[1], fn.path + "/operands", fn.where((bid, si)), fn.path,
               "decision tuple", "the two glyph inputs are not value() of the two rows at the same column",
               found=[expr_str(e, fn) for e in ops], sample="(%s, %s)" % tuple(expr_str(e, fn) for e in ops))
-    if sorted(x for x in roles if x) != [1, 2]:
-        return None
     # column loop: 0..size(param 3)
     ld = [x[1] for x in subexprs(idxs[0]) if x[0] == "def" and (call_name_of_def(fn, x[1]) or "").endswith("::next")]
     lk = loop_kind(fn, ld[0]) if len(ld) == 1 else None
@@ -168,18 +170,24 @@ def c16_r(ctx, f, table=None):
     A, B, C = sites
     # top border: dark filler over light filler, side glyph = lower half
     okA = A["top"] and A["bottom"] and A["top"][0] == "filler" and A["bottom"][0] == "filler" and A["top"][1] is True and A["bottom"][1] is False
-    ctx.check(r1, bool(okA), fn.path + "/top-border", A["call"].where(), fn.path, "first line",
-              "the first line is not a dark filler over a light border row (half-height light border)",
-              found=(A["top"], A["bottom"]), sample="first line = (dark filler, light row)")
+    if not (A["top"] and A["bottom"]):
+        ctx.abstain(r1, "rows of the first line are not recognised (neither a repeated module nor a matrix row)", A["call"].where())
+    else:
+        ctx.check(r1, bool(okA), fn.path + "/top-border", A["call"].where(), fn.path, "first line",
+                  "the first line is not a dark filler over a light border row (half-height light border)",
+                  found=(A["top"], A["bottom"]), sample="first line = (dark filler, light row)")
     for nm, s in (("top", A["top"]), ("bottom", A["bottom"]), ("last", C["bottom"])):
         if s and s[0] == "filler":
             ctx.check(r1, (s[2] or 0) >= 177, "%s/filler-len/%s" % (fn.path, nm), where_fn(fn), fn.path, nm + " filler row",
                       "synthetic row shorter than the widest symbol (177): print_line would index out of bounds", expected=">= 177", found=s[2],
                       sample="filler row of %s modules" % s[2])
     okC = C["top"] and C["bottom"] and C["top"][0] == "row" and C["bottom"][0] == "filler" and C["bottom"][1] is False
-    ctx.check(r1, bool(okC), fn.path + "/last-line", C["call"].where(), fn.path, "last line",
-              "the last line does not pair the last matrix row with a light border row", found=(C["top"] and C["top"][0], C["bottom"]),
-              sample="last line = (row size-1, light row)")
+    if not (C["top"] and C["bottom"]):
+        ctx.abstain(r1, "rows of the last line are not recognised (neither a repeated module nor a matrix row)", C["call"].where())
+    else:
+        ctx.check(r1, bool(okC), fn.path + "/last-line", C["call"].where(), fn.path, "last line",
+                  "the last line does not pair the last matrix row with a light border row", found=(C["top"] and C["top"][0], C["bottom"]),
+                  sample="last line = (row size-1, light row)")
     # side glyphs
     want_side = [(LOWER, LOWER), (FULL, FULL), (FULL, FULL)]
     for k, (g, w) in enumerate(zip(groups, want_side)):
